@@ -208,6 +208,11 @@ def story_case(r, ending=None, npieces=None, reject=None, nhash=1, heights=True,
         elif kind == "low_total":
             if r.chance(1, 2): x = b.htlc(inv, r.choice([total, need, need + 1000]), "absent", forward=max(0, need - 1 - r.below(3)))
             else: x = b.htlc(inv, 1000, max(0, need - 1 - r.below(3)))
+        elif kind == "low_total_solo":
+            # the whole set is ONE htlc carrying need-1..need-3: nothing else arrives, so whoever accepts it goes on to pay
+            t = max(1, need - 1 - r.below(3))
+            x = b.htlc(inv, t, "absent", forward=t, amount_tlv=atlv) if r.chance(1, 2) else b.htlc(inv, t, t, amount_tlv=atlv)
+            hts = []
         elif kind == "other_invoice": x = b.htlc(b.add_invoice(0, amount, ts=77), 1000, total)
         elif kind == "near_hash":
             # an HTLC whose payment hash is NOT the invoice's but agrees with it under weak comparisons, fully funded on its own
